@@ -34,8 +34,11 @@ impl IntrinsicInstrs {
         let intrinsic_opcodes = iter_pairs().map(|(k, v)| (v.value, k)).collect::<IndexMap<_, _>>();
 
         let intrinsic_abi_props = {
-            opcode_intrinsics.iter()
-                .map(|(&opcode, &kind)| {
+            // (every distinct pair, not just the last intrinsic given for each opcode: an earlier one
+            //  can still be the one that `intrinsic_opcodes` maps to this opcode)
+            iter_pairs().map(|(opcode, kind)| ((opcode, kind.value), kind)).collect::<IndexMap<_, _>>()
+                .into_iter()
+                .map(|((opcode, _), kind)| {
                     let (abi, abi_loc) = defs.ins_abi(language, opcode)
                         .ok_or_else(|| emitter.as_sized().emit(error!(
                             message("opcode {opcode} is an intrinsic but has no signature"),
